@@ -10,4 +10,4 @@ From PD Require Import Base.Field Base.Matrix Base.Solve Model.Gauss Model.Poly
   Model.Prior Model.Solver Model.Error Spec.RTS Run.GenRun.
 Extraction Language OCaml.
 Extraction "model.ml" g_c08 g_c09_transition g_c09_merge g_c09_closed g_fixed_grid
-  g_step g_finalize g_spec_smooth g_error g_interp g_spec_union mk_state mkN mkC mkCfg mkShape mkOde.
+  g_step g_init g_finalize g_spec_smooth g_error g_interp g_spec_union mk_state mkN mkC mkCfg mkShape mkOde.
